@@ -26,6 +26,7 @@ var (
 	vCapServer []transport.ServerConfig
 	vCapClient []transport.ConnectOptions
 	vCapFail   bool // the client constructor reports a dial error instead of dialing
+	vCapScript []bool // scripted dial outcomes (false = fail without dialing); exhausted = dial for real
 )
 
 func vNewServerTransport(c transport.WebSocketConn, config *transport.ServerConfig, after func()) transport.ServerTransport {
@@ -39,6 +40,10 @@ func vNewClientTransport(ctx context.Context, lggr logger.Logger, addr string, o
 	vCapMu.Lock()
 	vCapClient = append(vCapClient, opts)
 	fail := vCapFail
+	if len(vCapScript) > 0 {
+		fail = !vCapScript[0]
+		vCapScript = vCapScript[1:]
+	}
 	vCapMu.Unlock()
 	if fail {
 		return nil, fmt.Errorf("verif: capture only")
